@@ -1018,9 +1018,9 @@ def gen_real_family(rng, quick, timeout_family=False):
                     c['usages'].insert(rng.below(len(c['usages']) + 1), ('def', W, i + 1))
         fam['suite'] = sc
     for c in scripts[:n_act]:
-        if rng.chance(0.35):
-            # (not in [before-assert] under a suite whose own before-assert probe would come before it)
-            if fam.get('suite', {}).get('observes') or rng.chance(0.5):
+        # (not under a suite with probes of its own in before-assert / cleanup: they would see the case half-way)
+        if rng.chance(0.4) and not fam.get('suite', {}).get('observes'):
+            if rng.chance(0.5):
                 c['ops'].append(('rmcwd_end', rng.choice(['tmp', 'act'])))
             else:
                 c['ops'].append(('rmcwd_ba',))
